@@ -181,3 +181,17 @@ PROPS["C06"] = {
     "level_text": "Bounded symbolic model checking: ill-typed use is the input space - argument kinds are enumerated, payloads symbolic; an escaping panic, a deadlock or a path exceeding the step bound is an engine verdict that is then reproduced natively.",
     "level_note": "Bounds in evidence. Trusted: go/ssa, gosym, z3.",
 }
+
+# ---------------------------------------------------------------- C08
+PROPS["C08"] = {
+    "jobs": [
+        Job("soyhtml", "H_pure", "0..2,0..1,false", workers=8),
+        Job("soyhtml", "H_pure", "0..2,0..1,true", workers=8),
+    ],
+    "bounds": "3 two-file template sets covering print, let, if, foreach/ifempty, call with data=all / data=$m / value and content params, msg, css, switch, map and list literals, functions, $ij, and a render that fails half way; data: a symbolic 1-byte string, list of length 0 or 2, nested map; with and without an obligatory print directive; two consecutive renders under frozen memory (one inductive step: no render writes what the next one reads)",
+    "outside": "user directives/functions that themselves mutate their arguments; templates outside the dictionary; soyjs generation is checked under C09",
+    "assumptions": ["frame argument: if no store executed during a render targets memory reachable from the compiled bundle, the data, the injected data or soy's package-level variables, the state seen by the next render is unchanged, for histories of any length"],
+    "level_text": "Bounded symbolic model checking of a frame condition: the engine marks every heap cell reachable from the registry, caller data and soy's package-level variables read-only and reports any Store/MapUpdate/in-place append to them during two renders with symbolic data; byte-identical output of the two renders is asserted as well.",
+    "level_note": "Bounds: template dictionary and data shapes in evidence. Trusted: go/ssa, gosym heap model (slices keep Go's capacity/aliasing behaviour), z3.",
+    "technique": "symbolic execution of the go/ssa form with a frozen-memory monitor (frame condition) and SMT-decided output equality; findings confirmed natively by a reflect-based deep digest",
+}
